@@ -170,7 +170,7 @@ func runCrash(prop string) *ShardResult {
 		for k, v := range st.PerLevel {
 			res.hist("images_per_level", string(rune('0'+k)), int64(v))
 		}
-		res.hist("levels_completed", cfgName(cfg), int64(st.LevelsDone))
+		res.Mins["levels_completed_"+cfgName(cfg)] = int64(st.LevelsDone)
 		if st.DeadlineHit || st.CappedPoints > 0 || st.LevelsDone < cc.Depth {
 			res.Exhaustive = false
 		}
